@@ -164,6 +164,15 @@ func (w *c11World) connection(idx int, rng interface{ Intn(int) int }) {
 		var extra map[string]any
 		obo := ""
 		forceVariant := ""
+		if w.emailOn && idx%5 == 3 {
+			// directed: an account lacking a required validated credential logs in
+			switch i {
+			case 0:
+				k = 0
+			case 1:
+				k, forceVariant = 5, "unval"
+			}
+		}
 		if selfObo {
 			switch {
 			case i == 0:
@@ -199,7 +208,7 @@ func (w *c11World) connection(idx int, rng interface{ Intn(int) int }) {
 		case k < 4: // hi
 			vers := []string{"0.22", "0.22", "0.15", "abc", "0.21", ""}
 			v := vers[rng.Intn(len(vers))]
-			if selfObo && i == 0 {
+			if (selfObo || (w.emailOn && idx%5 == 3)) && i == 0 {
 				v = "0.22"
 			}
 			id, ctrls := do("hi", map[string]any{"ver": v, "ua": "c11"}, extra)
